@@ -92,6 +92,17 @@ JudgeBuild(e, mb, mcontent, x) ==
   IF NeverReturned(e) THEN Verdict(seqok /\ DevF01g(e, e.n), {"F01g"})
   ELSE IF e.res = "err" THEN Verdict(seqok /\ x.may, {})
   ELSE IF e.res # "ok" \/ ~Has(e, "ser") \/ e.ser # "ok" \/ ~Has(e, "parse") \/ e.parse # "ok" THEN Verdict(FALSE, {})
+  ELSE IF Has(e, "big") THEN
+    \* summary form (more than 1024 chunks): the count is read from the first 12 bytes, every per-chunk column of
+    \* the table is compared as a digest pair (as written / as measured); no listed deviation applies here
+    LET t == ParseHead(e.head)
+    IN Verdict(/\ seqok /\ e.content.len = mb.clen /\ Broken(mb) = {}
+               /\ SameDigest(e.dec, e.content)
+               /\ Has(e, "dec2") => e.dec2.ok /\ e.dec2.len = e.content.len /\ e.dec2.md5 = e.content.md5
+               /\ t.wf /\ e.ranges_ok /\ e.nranges = t.n /\ e.nparsed = t.n
+               /\ e.min_cs >= 1 /\ t.hs + e.sum_cs = e.total
+               /\ e.tbl_md5_dig = e.calc_md5_dig
+               /\ e.parts_ok = t.n /\ e.tbl_ds_dig = e.parts_len_dig, {})
   ELSE
     LET t  == ParseTable(IF Has(e, "bytes") THEN e.bytes ELSE e.head, e.total)
         n  == NChunks(mb)
